@@ -3,6 +3,7 @@ pub mod framework;
 pub mod secrets;
 pub mod engine_acct;
 pub mod engine_evlog;
+pub mod engine_files;
 pub mod engine_http;
 pub mod engine_sync;
 pub mod prop_c01;
@@ -14,6 +15,7 @@ pub mod prop_c08_scan;
 pub mod prop_c10;
 pub mod prop_c11;
 pub mod prop_c12;
+pub mod prop_c17;
 
 use framework::PropertyDef;
 
@@ -27,6 +29,7 @@ pub fn registry() -> Vec<PropertyDef> {
         prop_c10::def(),
         prop_c11::def(),
         prop_c12::def(),
+        prop_c17::def(),
     ]
 }
 
